@@ -55,9 +55,16 @@ def build_signal(case):
     kind = case["kind"]
     strat = "balanced_market" if kind == "market_vs_greedy" else kind
     interval = rng.choice([10, 15, 15, 30])
+    # balanced_market with a configured look-ahead of 48 h: standing times longer than a day, price signals published
+    # only a few hours ahead (the strategy makes them known HORIZON hours ahead), cheapest level late in the standing time
+    long_horizon = kind == "balanced_market" and case["i"] % 8 == 5
+    if long_horizon:
+        interval = rng.choice([30, 60])
     dt = datetime.timedelta(minutes=interval)
     start = T0 + datetime.timedelta(days=rng.choice([0, 1, 3]), hours=rng.choice([5, 6, 7]))
     n_steps = int(rng.choice([10, 14, 18]) * 60 / interval)
+    if long_horizon:
+        n_steps = int(rng.choice([36, 40]) * 60 / interval)
     # encouraged pattern per step
     pattern, steps_price = [], []
     if strat == "peak_load_window":
@@ -90,6 +97,12 @@ def build_signal(case):
             pattern = list(per)
         else:
             steps_price = per
+            if long_horizon:
+                late = int(26 * 60 / interval)
+                steps_price = [(0.3 if p == 0.1 else p) if t < late else p for t, p in enumerate(per)]
+                k = rng.randint(late + 1, n_steps - 8)
+                for t in range(k, k + 6):
+                    steps_price[t] = 0.1
     comp = {"vehicle_types": {}, "vehicles": {}, "grid_connectors": {}, "charging_stations": {}, "batteries": {}}
     ev = {"fixed_load": {}, "local_generation": {}, "grid_operator_signals": [], "vehicle_events": []}
     meta = {"vehicles": {}, "interval": interval, "n_steps": n_steps}
@@ -120,6 +133,8 @@ def build_signal(case):
             return sum(share[t] for t in range(a_, d_) if enc_[t])
         if steps_price:
             d = min(n_steps - 1, a + max(want_enc + rng.randint(2, 8), 4))
+            if long_horizon:
+                d = n_steps - 1
             cheapest = min(steps_price[a:d])
             enc = [steps_price[t] == cheapest for t in range(len(steps_price))]
             if capacity(enc, a, d) < want_enc:
@@ -171,6 +186,19 @@ def build_signal(case):
     if strat == "peak_load_window":
         options["time_windows"] = "@TIME_WINDOWS"
         meta["time_windows"] = time_windows
+    elif strat == "flex_window" and rng.random() < 0.3:
+        # the window flags come from a schedule CSV (constant or plateau targets, toggling charge flag)
+        options["LOAD_STRAT"] = "balanced"
+        gc["window"] = bool(pattern[0])
+        target, rows = rng.choice([10.0, 20.0]), ["timestamp,schedule [kW],charge"]
+        for t in range(n_steps):
+            if rng.random() < 0.15:
+                target = rng.choice([10.0, 20.0, 35.5])
+            rows.append("%s,%s,%d" % ((start + t * dt).isoformat(), target, 1 if pattern[t] else 0))
+        meta["schedule_csv"] = "\n".join(rows) + "\n"
+        ev["schedule_from_csv"] = {"column": "schedule [kW]", "start_time": scen.iso(start),
+                                   "step_duration_s": interval * 60, "csv_file": "@SCHEDULE_CSV",
+                                   "grid_connector_id": "GC1"}
     elif strat == "flex_window":
         options["LOAD_STRAT"] = "balanced"
         gc["window"] = bool(pattern[0])
@@ -197,10 +225,14 @@ def build_signal(case):
         meta["prices"] = steps_price[:n_steps]
         for t in range(1, n_steps):
             if steps_price[t] != steps_price[t - 1]:
+                st_t = start + t * dt - off_grid()
                 ev["grid_operator_signals"].append({
-                    "signal_time": scen.iso(start - datetime.timedelta(hours=1)),
-                    "start_time": scen.iso(start + t * dt - off_grid()),
+                    "signal_time": scen.iso(st_t - datetime.timedelta(hours=6) if long_horizon
+                                            else start - datetime.timedelta(hours=1)),
+                    "start_time": scen.iso(st_t),
                     "grid_connector_id": "GC1", "cost": {"type": "fixed", "value": steps_price[t]}})
+        if long_horizon:
+            options["HORIZON"] = 48
     comp["grid_connectors"]["GC1"] = gc
     scn = {"scenario": {"start_time": scen.iso(start), "interval": interval, "n_intervals": n_steps},
            "components": comp, "events": ev}
@@ -241,8 +273,22 @@ def eval_signal(full):
     if not mv:
         return {"lines": [], "impl": [], "violations": [], "nontrivial": False, "stats": ["empty"], "replay_case": full}
     # the strategy's step model (where one exists) is tied to the real step on these runs
-    with steptie.tie_for(full) as tie:
-        r = scen.run_real(full, timeout_s=90)
+    run_full, tmp_csv = full, None
+    if full["meta"].get("schedule_csv"):
+        import os
+        import tempfile
+        fh = tempfile.NamedTemporaryFile("w", suffix=".csv", delete=False)
+        fh.write(full["meta"]["schedule_csv"])
+        fh.close()
+        tmp_csv = fh.name
+        run_full = copy.deepcopy(full)
+        run_full["scenario"]["events"]["schedule_from_csv"]["csv_file"] = tmp_csv
+    try:
+        with steptie.tie_for(run_full) as tie:
+            r = scen.run_real(run_full, timeout_s=90)
+    finally:
+        if tmp_csv:
+            os.unlink(tmp_csv)
     tl, ti = ([], []) if r.get("timeout") else (tie.lines, tie.impl)
     if r.get("step_i") is None or r.get("escaped") or r.get("timeout") or r.get("aborted"):
         return {"lines": tl, "impl": ti, "violations": [], "nontrivial": False, "stats": stats + ["no_full_run"],
